@@ -5,7 +5,7 @@ from ref.hashes import rfc6979_nonce
 
 ID = "C01"
 LEVEL = "exploration"
-CONFIGS = {"quick": ["san", "mx_i64"], "thorough": ["san", "san_nv", "mx_i64", "mx_i128s", "mx_noasm", "mx_clang", "mx_w2"]}
+CONFIGS = {"quick": ["san", "mx_i64", "mx_noasm"], "thorough": ["san", "san_nv", "mx_i64", "mx_i128s", "mx_noasm", "mx_clang", "mx_w2"]}
 EXTRA_BUILDS = ["sg13", "sg199"]
 RULE = ("sign / sign_recoverable / recover / verify / normalize records on pool-biased keys, messages (incl. >= n), extra data and scripted "
         "nonce callbacks, and on verification triples built by honest signing, the choose-s construction (s in {1,2,(n-1)/2,(n+1)/2,n-1,small}), "
@@ -188,7 +188,7 @@ def wl_verify(ctx, config, scale=1.0):
     for it in range(int(ctx.n(2500, 60000) * scale)):
         kind = it % 10
         if kind < 3:
-            s_ = rng.choice(specials) if kind < 2 else rng.randrange(1, 2**100)
+            s_ = rng.choice(specials) if kind < 1 else (pools.near_limbwise(rng, HALF_N) % n or 1 if kind < 2 else rng.randrange(1, 2**100))
             r_, s_, m, Q, R = choose_s(rng, s_)
             cls = "choose_s:" + ("high" if s_ > HALF_N else "low")
         elif kind < 5:
